@@ -118,10 +118,15 @@ class MQueue:
 
 
 class Clock:
-    def __init__(self, now=1700000000.0):
+    def __init__(self, now=1700000000.0, S=None):
         self.now = now
+        self.S = S
 
     def time(self):
+        # reading the clock is an interaction with the environment: a preemption point (a step of kind
+        # 'clock', ignored by the label mappings), so that unsynchronised state around it is exposed
+        if self.S is not None:
+            self.S.yield_('clock', None)
         return self.now
 
     def sleep(self, s):
@@ -249,6 +254,21 @@ class FakeSock:
         self.sends = 0
         self.closed = 0
         self.delivered = 0
+        # the class of the injected I/O error varies with the scenario (deterministically): any OSError is an I/O failure
+        self.errkind = (len(self.chunks) + (fail_send or 0)) % 5
+
+    def io_error(self, reading):
+        import ssl
+        k = self.errkind
+        if k == 0:
+            return ConnectionResetError(104, 'Connection reset by peer') if reading else BrokenPipeError(32, 'Broken pipe')
+        if k == 1:
+            return TimeoutError(110, 'Connection timed out')
+        if k == 2:
+            return OSError(105, 'No buffer space available')
+        if k == 3:
+            return ssl.SSLError(1, '[SSL] record layer failure')
+        return OSError('injected I/O failure')
 
     def recv(self, n):
         self.S.yield_('recv', None, cond=lambda: bool(self.chunks) or self.end != 'block' or self.closed > 0)
@@ -264,7 +284,7 @@ class FakeSock:
             _ev(self.S, 'recv-eof')
             return b''
         _ev(self.S, 'recv-error')
-        raise ConnectionResetError(104, 'Connection reset by peer')
+        raise self.io_error(True)
 
     def sendall(self, data):
         self.S.yield_('send', bytes(data))
@@ -274,12 +294,13 @@ class FakeSock:
             raise OSError(9, 'Bad file descriptor')
         if self.fail_send is not None and self.sends >= self.fail_send:
             _ev(self.S, 'send-error', bytes(data))
-            raise BrokenPipeError(32, 'Broken pipe')
+            raise self.io_error(False)
         self.sent.append(bytes(data))
         _ev(self.S, 'send', bytes(data))
 
     def send(self, data):
-        """socket.send may accept only part of the data (here: at most 64 KiB) and returns the count"""
+        """socket.send may accept only part of the data (here: at most 16 KiB, less than any chunk size a caller
+        is likely to slice by) and returns the count"""
         self.S.yield_('send', bytes(data))
         self.sends += 1
         if self.closed:
@@ -287,8 +308,8 @@ class FakeSock:
             raise OSError(9, 'Bad file descriptor')
         if self.fail_send is not None and self.sends >= self.fail_send:
             _ev(self.S, 'send-error', bytes(data))
-            raise BrokenPipeError(32, 'Broken pipe')
-        part = bytes(data)[:65536]
+            raise self.io_error(False)
+        part = bytes(data)[:16384]
         self.sent.append(part)
         _ev(self.S, 'send', part)
         return len(part)
@@ -394,7 +415,7 @@ def install(S, chunks=(), end='block', fail_send=None, cpu=8, cpu_raises=False):
     env = Env()
     env.S = S
     S.halted = False
-    env.clock = Clock()
+    env.clock = Clock(S=S)
     env.sock = FakeSock(S, chunks, end, fail_send)
     env.os = FakeOS(S)
     env.queues = []
